@@ -388,6 +388,7 @@ func init() {
 				return
 			}
 			c.FirstSlashOnly("C09") // a name with a second slash is the same account in a batch as on its own
+			c.CheckSemantics("C07") // "authorised": the permission checker reads each list in order, first match decides
 			c.RefusalReasons("C09")
 			c.EntryAlignment("C09", s, "att")
 			c.RulerFastPath("C09")
@@ -404,6 +405,7 @@ func init() {
 			c.LockerInternals("C15") // a batch of distinct keys returns its verdicts only if distinct keys have distinct mutexes
 			c.ScatterPartition("C09")
 			c.RulerPositions("C09")
+			c.MetadataImmutable("C01")
 			c.ScatterIndexDiscipline("C09")
 			c.ImmutableAfterConstruction("C09.O5 config.immutable", pkgUnlocker, "unlocker passphrase")
 			c.ImmutableAfterConstruction("C09.O5 config.immutable", pkgChecker, "permission table")
@@ -441,6 +443,7 @@ func init() {
 			c.StateStoreDiscipline("C14", s, "att")
 			c.StateStoreDiscipline("C14", s, "prop")
 			c.RulerPositions("C14")
+			c.MetadataImmutable("C01")
 		},
 		Explanation: "A composition property: with t > n/2 any two sets of t instances intersect; the shared instance refuses one of two conflicting duties by C01/C02 (its watermark is keyed by its own share's public key), under any interleaving by C04. Decided structurally: the threshold bound exists on every path that starts a generation and is the threshold stored with the account (C12 O1/O3), plus the C01, C02 and C04 obligation groups re-evaluated. The counting lemma is mathematics (prose). See DESIGN.md §5 C14.",
 		Trusted:     append([]string{"the quorum-intersection lemma (t > n/2) - mathematics", "accounts created outside Dirk with other thresholds are out of scope"}, commonTrusted...),
